@@ -241,7 +241,18 @@ pub fn convert_once(case: &Case) -> Result<(Vec<(String, Vec<i16>)>, String), St
                 }
             }
             // raw units are nanometres here; LEF import scales microns by 1e4, values stay integral
-            let lib = raw::lef::LefImporter::import(&l0, None).map_err(e)?;
+            // with dup_layer_nums the caller supplies a layer set that knows none of the LEF's layer names and whose
+            // numbering has gaps (0, 1, 5, 9 in use): the numbers given to the new layers must not depend on a hash order
+            let supplied = if case.dup_layer_nums {
+                let mut ls = Layers::default();
+                for (n, name) in [(5i16, "x5"), (0, "x0"), (9, "x9"), (1, "x1")] {
+                    ls.add(Layer::new(n, name));
+                }
+                Some(Ptr::new(ls))
+            } else {
+                None
+            };
+            let lib = raw::lef::LefImporter::import(&l0, supplied).map_err(e)?;
             let sig = map_orders(&lib);
             let l = raw::lef::LefExporter::export(&lib).map_err(e)?;
             Ok((sig, format!("{}\n{}", dump_raw(&lib), serde_json::to_string(&l).map_err(|x| x.to_string())?)))
@@ -355,6 +366,27 @@ pub fn convert_once(case: &Case) -> Result<(Vec<(String, Vec<i16>)>, String), St
                 Err(e) => Ok((vec![], format!("Err: {e}"))),
             }
         }
+        9 if case.block_layers == 0 && case.two_ports => {
+            // raw -> GDSII of an abstract whose port has shapes on several layers none of which defines a purpose (what
+            // the LEF importer produces): which layer the error names must not depend on a hash order
+            let mut ls = Layers::default();
+            let keys: Vec<LayerKey> = (0..4).map(|i| ls.add(Layer::new(10 + i as i16, format!("met{i}")))).collect();
+            let mut lib = Library::new("nopurposes", Units::Nano);
+            let outline = Polygon { points: vec![Point::new(0, 0), Point::new(50, 0), Point::new(50, 30), Point::new(0, 30)] };
+            let mut abs = Abstract::new("A", outline);
+            let mut port = AbstractPort::new("p");
+            let n = 2 + case.port_layers.min(2);
+            for k in 0..n {
+                port.shapes.insert(keys[(k + case.perm) % 4], vec![shape(10 * k as isize, false)]);
+            }
+            abs.ports.push(port);
+            lib.cells.push(Ptr::new(Cell::from(abs)));
+            lib.layers = Ptr::new(ls);
+            match lib.to_gds() {
+                Ok(_) => Ok((vec![], "accepted layers without purposes (not judged here)".to_string())),
+                Err(x) => Ok((vec![], format!("Err: {x:?} / {x}"))),
+            }
+        }
         9 if case.block_layers != 3 => {
             // raw -> GDSII (block_layers 0) / raw -> protobuf (block_layers 2) of an element whose layer does not
             // define the element's purpose: the error is the result
@@ -459,10 +491,34 @@ pub fn convert_once(case: &Case) -> Result<(Vec<(String, Vec<i16>)>, String), St
                 let mut top = Layout::new("top", 0, Outline::rect(12, 6).unwrap());
                 top.instances.add(Instance { inst_name: "ia".into(), cell: alpha.clone(), loc: (0, 0).into(), reflect_horiz: false, reflect_vert: false });
                 top.instances.add(Instance { inst_name: "ib".into(), cell: beta.clone(), loc: (4, 0).into(), reflect_horiz: false, reflect_vert: false });
+                // five more cells that wrap a raw layout (of a raw library that is not registered with the gridded one),
+                // instantiated by the top cell, allocated in alternating order as well
+                let mut wrapped: Vec<Ptr<Cell>> = vec![];
+                if case.two_ports {
+                    let order: Vec<usize> = if flip { (0..5).rev().collect() } else { (0..5).collect() };
+                    let mut slots: Vec<Option<Ptr<Cell>>> = vec![None; 5];
+                    for k in order {
+                        let rawlay = raw::Layout { name: format!("prim{k}"), insts: vec![], elems: vec![], annotations: vec![] };
+                        let rl = tetris::cell::RawLayoutPtr {
+                            outline: Outline::rect(1, 6).unwrap(),
+                            metals: 0,
+                            lib: Ptr::new(raw::Library::new("unregistered", raw::Units::Nano)),
+                            cell: Ptr::new(raw::Cell::from(rawlay)),
+                        };
+                        slots[k] = Some(Ptr::new(Cell::from(rl)));
+                    }
+                    wrapped = slots.into_iter().map(|x| x.unwrap()).collect();
+                    for (k, w) in wrapped.iter().enumerate() {
+                        top.instances.add(Instance { inst_name: format!("iw{k}"), cell: w.clone(), loc: (6 + k as isize, 0).into(), reflect_horiz: false, reflect_vert: false });
+                    }
+                }
                 let mut lib = TLib::new("tlib");
                 lib.cells.push(Ptr::new(Cell::from(top)));
                 lib.cells.push(alpha);
                 lib.cells.push(beta);
+                for w in wrapped {
+                    lib.cells.push(w);
+                }
                 let bs = build_stack(&fam[si])?;
                 match tetris::conv::raw::RawExporter::convert(lib, bs.stack) {
                     Err(e) => return Err(format!("tetris->raw conversion of a parent-first library failed: {e:?}")),
